@@ -173,6 +173,16 @@ def correspond(ctx, scale):
                         dec_out = q.indices_to_codes(idx)
                         if not torch.equal(dec_out, out):
                             raise AssertionError('indices_to_codes(indices) != forward output (bit-exact)')
+                        # the integer index arithmetic does not depend on the ambient autocast mode (CPU mixed precision): same indices, same codes
+                        with torch.autocast('cpu', dtype=torch.bfloat16):
+                            out_ac, idx_ac = q(z)
+                            all_ix = torch.arange(min(q.codebook_size, 4096))
+                            rt_ac = q.codes_to_indices(q.indices_to_codes(all_ix)) if ncb == 1 else all_ix
+                        dist['fsq_autocast'] = dist.get('fsq_autocast', 0) + 1
+                        if not torch.equal(idx_ac, idx):
+                            raise AssertionError(f'under torch.autocast(cpu, bfloat16) {int((idx_ac != idx).sum())} of {idx.numel()} indices differ from the plain float32 call')
+                        if not torch.equal(rt_ac.reshape(-1), all_ix.to(rt_ac.dtype)):
+                            raise AssertionError('under torch.autocast(cpu, bfloat16) codes_to_indices(indices_to_codes(i)) != i')
                     except Exception as ex:
                         failures.append({'key': f'forward:fsq:{levels}:sym={sym}:ncb={ncb}:train={train}', 'what': f'{type(ex).__name__}: {ex}',
                                          'case': {'part': 'forward', 'levels': levels, 'sym': sym, 'ncb': ncb, 'train': train, 'z': z.tolist()}})
